@@ -21,6 +21,7 @@ import (
 	"github.com/scrapli/scrapligo/driver/network"
 	"github.com/scrapli/scrapligo/driver/opoptions"
 	"github.com/scrapli/scrapligo/driver/options"
+	"github.com/scrapli/scrapligo/platform"
 	"github.com/scrapli/scrapligo/response"
 	"github.com/scrapli/scrapligo/util"
 
@@ -38,6 +39,7 @@ type c13dev struct {
 	// everything below is guarded by the pipe lock (Handle runs with it held)
 	network  bool
 	outs     []string
+	faultAt  int
 	started  bool   // user lines of the current operation have begun
 	first    string // first user line of the operation (network: marks the end of privilege navigation)
 	target   string // mode in which the operation's lines are expected
@@ -61,7 +63,7 @@ func c13Prompt(c *sim.CLI) string {
 }
 
 func newC13Dev(networkDrv bool, mode string, seg int) *c13dev {
-	d := &c13dev{CLI: sim.NewCLI(), network: networkDrv}
+	d := &c13dev{CLI: sim.NewCLI(), network: networkDrv, faultAt: -1}
 	d.Mode = mode
 	d.Prompt = c13Prompt
 	if seg > 0 {
@@ -95,6 +97,10 @@ func newC13Dev(networkDrv bool, mode string, seg int) *c13dev {
 		i := len(d.user)
 		d.user = append(d.user, line)
 		d.userMode = append(d.userMode, c.Mode)
+		if i == d.faultAt {
+			c.Hidden = true // from here on: no output, no prompt, no echo
+			return ""
+		}
 		out := ""
 		if i < len(d.outs) {
 			out = d.outs[i]
@@ -137,6 +143,8 @@ type c13op struct {
 	obsModel string // same format as the Lean model answer
 	obsSpec  string // same format as the Lean spec answer
 	straddle bool   // a failure string with LF was laid across two consecutive outputs
+	faultAt  int    // the device never answers this line of the operation (-1: answers all)
+	derived  string // kind of failure string derived from the command / the prompt, if any
 	twinDiff string // n.cfg: SendConfig vs SendConfigs on an identical device
 	native   []string
 	user     []string
@@ -146,7 +154,9 @@ type c13op struct {
 }
 
 type c13sess struct {
-	direct   bool // no session: response.NewResponse / Record / AppendResponse called directly
+	direct   bool   // no session: response.NewResponse / Record / AppendResponse called directly
+	platform string // built by platform.NewPlatform(<platform>) / NewPlatformVariant; its failure list must flow in
+	variant  string
 	network  bool
 	drvGiven bool
 	drv      []string
@@ -203,6 +213,8 @@ func (o *c13op) goOpts() []util.Option {
 			oo = append(oo, opoptions.WithNoStripPrompt())
 		case "xt":
 			oo = append(oo, opoptions.WithTimeoutOps(6*time.Second))
+		case "xs": // short, for operations in which the device stops answering
+			oo = append(oo, opoptions.WithTimeoutOps(400*time.Millisecond))
 		case "xm":
 			oo = append(oo, opoptions.WithExactMatchInput())
 		case "xp":
@@ -283,6 +295,12 @@ func c13BuildToks(r *vlib.Rng, s *c13sess, o *c13op) {
 	o.setToks(toks)
 }
 
+// resetObs clears what a run recorded, so the operation can be run again
+func (o *c13op) resetObs() {
+	o.errClass, o.errText, o.panicked, o.obsModel, o.obsSpec, o.twinDiff = "", "", "", "", "", ""
+	o.native, o.user, o.userMode, o.stray = nil, nil, nil, nil
+}
+
 func (o *c13op) isCfg() bool  { return o.api == "n.cfg" }
 func (o *c13op) isOne() bool  { return o.api == "g.cmd" || o.api == "n.cmd" }
 func (o *c13op) isFile() bool { return o.api == "g.file" || o.api == "n.file" || o.api == "n.cfgfile" }
@@ -329,9 +347,19 @@ func (s *c13sess) line(o *c13op) string {
 	if s.drvGiven {
 		drv = s.drv
 	}
+	outs := vlib.HexList(strsB(o.recOuts()))
+	if o.faultAt >= 0 && o.faultAt < len(o.outs) {
+		parts := strings.Split(outs, ",")
+		parts[o.faultAt] = "!"
+		outs = strings.Join(parts, ",")
+	}
+	plat := ""
+	if s.platform != "" {
+		plat = "," + s.platform + ":" + s.variant
+	}
 	// field 4 is the old spelling of a trailing stop option: always 0 now (stop is a token)
-	return fmt.Sprintf("c13 %s %s %s 0 %s %s x%d,%s,%s,%s,%s", o.api, vlib.HexList(strsB(drv)), op,
-		cmds, vlib.HexList(strsB(o.recOuts())), s.seg, b(o.crlf), b(o.trail), b(o.noFile), s.mode)
+	return fmt.Sprintf("c13 %s %s %s 0 %s %s x%d,%s,%s,%s,%s%s", o.api, vlib.HexList(strsB(drv)), op,
+		cmds, outs, s.seg, b(o.crlf), b(o.trail), b(o.noFile), s.mode, plat)
 }
 
 func c13ParseLine(line string) (*c13sess, error) {
@@ -353,7 +381,17 @@ func c13ParseLine(line string) (*c13sess, error) {
 		}
 		return out, nil
 	}
-	o := &c13op{api: f[1], class: "replay", pattern: "replay"}
+	o := &c13op{api: f[1], class: "replay", pattern: "replay", faultAt: -1}
+	if strings.Contains(f[6], "!") {
+		parts := strings.Split(f[6], ",")
+		for i, x := range parts {
+			if x == "!" {
+				o.faultAt = i
+				parts[i] = "-"
+			}
+		}
+		f[6] = strings.Join(parts, ",")
+	}
 	s := &c13sess{network: strings.HasPrefix(f[1], "n."), direct: strings.HasPrefix(f[1], "d."), ops: []*c13op{o}}
 	var err error
 	if s.drv, err = unlist(f[2]); err != nil {
@@ -397,6 +435,14 @@ func c13ParseLine(line string) (*c13sess, error) {
 		s.seg, _ = strconv.Atoi(x[0])
 		o.crlf, o.trail, o.noFile, s.mode = x[1] == "1", x[2] == "1", x[3] == "1", x[4]
 	}
+	if len(x) >= 6 {
+		pv := strings.SplitN(x[5], ":", 2)
+		s.platform = pv[0]
+		if len(pv) == 2 {
+			s.variant = pv[1]
+		}
+		s.network = strings.HasPrefix(f[1], "n.")
+	}
 	if s.mode == "" {
 		s.mode = "privilege-exec"
 	}
@@ -409,7 +455,13 @@ func c13ParseLine(line string) (*c13sess, error) {
 var c13Pool = []string{"% Invalid input", "% Invalid", "% Ambiguous command", "Error:", "^", "é✗ failed",
 	"aab", "bad\ncmd", "syntax error", "E", "rror", "Error: bad", "% ", "not found", "aaab", " ",
 	// anchored to a line start / end, or spanning lines
-	"\n% Invalid input", "\n% ", "rror\n", "a\nb", "marker.\n^"}
+	"\n% Invalid input", "\n% ", "rror\n", "a\nb", "marker.\n^",
+	// would mean something else as regular expressions
+	"a.c", ".*", "[ab]+", "(x|y)", "\\d+", "fail?", "e{2}"}
+
+// what the regex reading of a failure string would match although the string itself is not there
+var c13RegexNear = map[string]string{"a.c": "abc", ".*": "anything at all", "[ab]+": "abba", "(x|y)": "x or y",
+	"\\d+": "12345", "fail?": "fai", "e{2}": "ee", "^": "line start", "marker.\n^": "markerX\nline"}
 
 // c13Straddle rewrites outs[i], outs[i+1] so that s (which contains LF) does not have to occur in
 // either but occurs in outs[i] + "\n" + outs[i+1]: suffix of the first, line break, prefix of the second.
@@ -508,6 +560,9 @@ func c13Near(r *vlib.Rng, s string) string {
 	if s == "" {
 		return "ok"
 	}
+	if alt, ok := c13RegexNear[s]; ok && r.Bool() {
+		return c13Embed(r, alt)
+	}
 	switch r.Intn(5) {
 	case 0:
 		return c13Embed(r, s[:len(s)-1]) // proper prefix (may cut a rune: harmless, bytes are bytes)
@@ -540,7 +595,7 @@ func c13Eff(drv []string, opF *[]string) []string {
 }
 
 func c13GenOp(r *vlib.Rng, s *c13sess, thorough bool) *c13op {
-	o := &c13op{}
+	o := &c13op{faultAt: -1}
 	if s.network {
 		o.api = []string{"n.cmd", "n.cmds", "n.cmds", "n.file", "n.cfgs", "n.cfgs", "n.cfgfile", "n.cfg", "n.cfg"}[r.Intn(9)]
 	} else {
@@ -649,6 +704,48 @@ func c13GenOp(r *vlib.Rng, s *c13sess, thorough bool) *c13op {
 		c13Straddle(r, lfStrs[r.Intn(len(lfStrs))], &o.outs[i], &o.outs[i+1])
 		o.straddle = true
 	}
+	// a failure string taken from what surrounds the output on the wire: the echoed command, the
+	// joint echo/output, the joint output/prompt, the prompt. Only the recorded output is searched:
+	// the echo never is, the prompt only under WithNoStripPrompt.
+	if r.Chance(1, 6) {
+		i := r.Intn(n)
+		c, out := o.cmds[i], o.outs[i]
+		tail := func(x string, k int) string {
+			if len(x) > k {
+				return x[len(x)-k:]
+			}
+			return x
+		}
+		head := func(x string, k int) string {
+			if len(x) > k {
+				return x[:k]
+			}
+			return x
+		}
+		d, kind := "", ""
+		switch r.Intn(5) {
+		case 0:
+			d, kind = c, "whole-command"
+		case 1:
+			if w := strings.Fields(c); len(w) > 0 {
+				d, kind = w[r.Intn(len(w))], "word-of-command"
+			}
+		case 2:
+			d, kind = tail(c, 4)+"\n"+head(out, 3), "echo-output-joint"
+		case 3:
+			d, kind = tail(out, 3)+"\nrout", "output-prompt-joint"
+		default:
+			d, kind = []string{"router", "uter#", "#", "(config)#", "router(config)"}[r.Intn(5)], "prompt"
+		}
+		if strings.TrimSpace(d) != "" {
+			l := []string{d}
+			if o.opF != nil && r.Bool() {
+				l = append(append([]string{}, *o.opF...), d)
+			}
+			o.opF = &l
+			o.derived = kind
+		}
+	}
 	if o.isFile() {
 		o.crlf = r.Chance(1, 4)
 		o.trail = o.cmds[n-1] == "" || r.Chance(2, 3) // bufio.ScanLines drops a final empty line
@@ -664,10 +761,11 @@ func c13GenOp(r *vlib.Rng, s *c13sess, thorough bool) *c13op {
 // malformed / degenerate operations
 func c13GenMalformed(r *vlib.Rng, s *c13sess) *c13op {
 	o := c13GenOp(r, s, false)
-	for o.isOne() || o.isCfg() {
-		o = c13GenOp(r, s, false)
+	choice := r.Intn(3)
+	if o.isOne() || o.isCfg() {
+		choice = 2 // these take a command / a text, never an empty list or a file
 	}
-	switch r.Intn(3) {
+	switch choice {
 	case 0: // no commands at all
 		o.cmds, o.outs, o.class = nil, nil, "malformed-empty-list"
 		o.trail = false
@@ -687,7 +785,7 @@ func c13GenMalformed(r *vlib.Rng, s *c13sess) *c13op {
 		o.class = "empty-failure-string"
 		c13BuildToks(r, s, o)
 	}
-	if len(o.cmds) > 0 && !o.noFile && r.Chance(1, 3) { // an option that returns an error: the call fails, nothing is sent
+	if len(o.cmds) > 0 && !o.noFile && (r.Chance(1, 3) || ((o.isOne() || o.isCfg()) && r.Bool())) { // an option that returns an error: the call fails, nothing is sent
 		at := r.Intn(len(o.toks) + 1)
 		o.setToks(append(o.toks[:at:at], append([]c13tok{{kind: "b"}}, o.toks[at:]...)...))
 		o.class = "malformed-bad-option"
@@ -717,6 +815,26 @@ func c13GenSession(r *vlib.Rng, thorough bool, malformed bool) *c13sess {
 			s.ops = append(s.ops, c13GenMalformed(r, s))
 		} else {
 			s.ops = append(s.ops, c13GenOp(r, s, thorough))
+		}
+	}
+	// the device stops answering in the middle of the session's last operation: the channel's error
+	// must be handed up, no response object, nothing transmitted after the unanswered line
+	if !malformed && r.Chance(1, 25) {
+		o := s.ops[len(s.ops)-1]
+		if len(o.cmds) > 0 && !o.noFile {
+			o.faultAt = r.Intn(len(o.cmds))
+			o.class = "device-stops-answering"
+			at := r.Intn(len(o.toks) + 1)
+			var keep []c13tok
+			for _, k := range o.toks {
+				if k.kind != "xt" { // a later WithTimeoutOps would override the short one
+					keep = append(keep, k)
+				}
+			}
+			if at > len(keep) {
+				at = len(keep)
+			}
+			o.setToks(append(keep[:at:at], append([]c13tok{{kind: "xs"}}, keep[at:]...)...))
 		}
 	}
 	if s.drvGiven {
@@ -777,7 +895,7 @@ func c13ShowErr(e *response.OperationError) string {
 	if e == nil {
 		return "nil-operation-error"
 	}
-	return c13Hex(e.Input) + ";" + c13Hex(e.Output) + ";" + c13Hex(e.ErrorString)
+	return c13Hex(e.Input) + ";" + c13Hex(e.Output) + ";" + c13Hex(e.ErrorString) + ";" + c13Hex(e.Error())
 }
 
 func c13ShowFailure(err error) string {
@@ -799,7 +917,7 @@ func c13ShowFailure(err error) string {
 		for _, e := range me.Operations {
 			l = append(l, c13ShowErr(e))
 		}
-		return "2~" + c13JoinOr(",", l)
+		return "2~" + c13JoinOr(",", l) + "~" + c13Hex(me.Error())
 	}
 	return fmt.Sprintf("9~%T", err)
 }
@@ -870,6 +988,13 @@ func (o *c13op) nativeResp(r *response.Response, eff []string, dom bool) {
 		o.native = append(o.native, "nil response in result")
 		return
 	}
+	if oe, ok := r.Failed.(*response.OperationError); ok && oe != nil {
+		// theorem op_error_text_names: the text names the input, the matched string and the output
+		txt := oe.Error()
+		if !strings.Contains(txt, oe.Input) || !strings.Contains(txt, oe.ErrorString) || !strings.Contains(txt, oe.Output) {
+			o.native = append(o.native, fmt.Sprintf("error text %q does not name input %q, matched string %q and output %q", txt, oe.Input, oe.ErrorString, oe.Output))
+		}
+	}
 	if dom && (r.Failed != nil) != c13ContainsAny(r.Result, eff) {
 		o.native = append(o.native, fmt.Sprintf("response to %q: Failed=%v but output %q contains-one-of %q = %v",
 			r.Input, r.Failed != nil, r.Result, eff, c13ContainsAny(r.Result, eff)))
@@ -901,6 +1026,15 @@ func (o *c13op) nativeMulti(m *response.MultiResponse, eff []string, dom bool) {
 		}
 		if !same {
 			o.native = append(o.native, fmt.Sprintf("MultiOperationError lists %d operations, the failed members are %d (or order/identity differs)", len(me.Operations), len(want)))
+		}
+		// theorem multi_error_text: one failed member -> that member's own text; otherwise the text
+		// states how many members failed
+		txt := me.Error()
+		if len(want) == 1 && want[0] != nil && txt != want[0].Error() {
+			o.native = append(o.native, fmt.Sprintf("multi error text %q is not the single failed member's text %q", txt, want[0].Error()))
+		}
+		if len(want) != 1 && !strings.Contains(txt, strconv.Itoa(len(want))) {
+			o.native = append(o.native, fmt.Sprintf("multi error text %q does not state the number of failed members (%d)", txt, len(want)))
 		}
 	}
 }
@@ -934,7 +1068,7 @@ func c13RunDirect(s *c13sess) {
 				bits = append(bits, c13Bit(r != nil && r.Failed != nil))
 			}
 			sent := c13ShowSent(o.cmds)
-			o.obsModel = sent + "|R" + c13JoinOr("/", rs) + "|F" + c13ShowFailure(m.Failed)
+			o.obsModel = sent + "|R" + c13JoinOr("/", rs) + "|F" + c13ShowFailure(m.Failed) + "|J" + c13Hex(m.JoinedResult())
 			o.obsSpec = sent + "|B" + c13JoinOr("", bits) + "|M" + c13Bit(m.Failed != nil) + "|I" + c13Members(m.Failed)
 		}()
 	}
@@ -946,7 +1080,7 @@ func c13GenDirect(r *vlib.Rng) *c13sess {
 	for i, n := 0, r.Intn(4); i < n; i++ {
 		s.drv = append(s.drv, string(r.Bytes(r.Range(1, 3), alpha)))
 	}
-	o := &c13op{api: "d.multi", class: "direct", pattern: "random"}
+	o := &c13op{api: "d.multi", class: "direct", pattern: "random", faultAt: -1}
 	if len(s.drv) > 0 && r.Chance(1, 20) {
 		s.drv[r.Intn(len(s.drv))] = ""
 		o.class = "empty-failure-string"
@@ -978,12 +1112,71 @@ func c13ExhaustiveDirect() []*c13sess {
 			for hl := 0; hl <= 5; hl++ {
 				for _, hay := range words(hl) {
 					out = append(out, &c13sess{direct: true, drvGiven: true, drv: []string{needle}, mode: "privilege-exec",
-						ops: []*c13op{{api: "d.multi", class: "direct-exhaustive", pattern: "exhaustive", cmds: []string{"c"}, outs: []string{hay}}}})
+						ops: []*c13op{{api: "d.multi", class: "direct-exhaustive", pattern: "exhaustive", cmds: []string{"c"}, outs: []string{hay}, faultAt: -1}}})
 				}
 			}
 		}
 	}
 	return out
+}
+
+type c13plat struct {
+	name, variant string
+	fwc           []string
+}
+
+// c13PlatformList asks the model driver for the embedded platform definitions as the translator
+// read them from the YAML assets (file, variant, failed-when-contains)
+func c13PlatformList(c *ctx) []c13plat {
+	var out []c13plat
+	ans := c.ask([]string{"c13 platlist"})
+	if len(ans) != 1 || ans[0] == "." || ans[0] == "bad-op" {
+		c.res.Fail("machinery", "c13 platlist", "no platform list from the model driver: "+strings.Join(ans, " "), "platlist")
+		return nil
+	}
+	for _, e := range strings.Split(ans[0], "|") {
+		f := strings.Split(e, ":")
+		if len(f) != 3 {
+			continue
+		}
+		v, _ := vlib.UnHex(f[1])
+		pl := c13plat{name: strings.TrimSuffix(f[0], ".yaml"), variant: string(v)}
+		if f[2] != "." {
+			for _, h := range strings.Split(f[2], ",") {
+				b, _ := vlib.UnHex(h)
+				pl.fwc = append(pl.fwc, string(b))
+			}
+		}
+		out = append(out, pl)
+	}
+	return out
+}
+
+func c13GenPlatformSession(r *vlib.Rng, pl c13plat, thorough bool) *c13sess {
+	// network or generic flavour: ask the library
+	var p *platform.Platform
+	var err error
+	probe := []util.Option{options.WithCustomTransport(sim.NewCLI()), options.WithAuthBypass()}
+	if pl.variant == "" {
+		p, err = platform.NewPlatform(pl.name, "h", probe...)
+	} else {
+		p, err = platform.NewPlatformVariant(pl.name, pl.variant, "h", probe...)
+	}
+	if err != nil {
+		return nil // loading the embedded definitions is C17's subject
+	}
+	_, nerr := p.GetNetworkDriver()
+	s := &c13sess{platform: pl.name, variant: pl.variant, network: nerr == nil, mode: "privilege-exec",
+		drvGiven: true, drv: append([]string{}, pl.fwc...)}
+	s.seg = []int{0, 0, 7, 64}[r.Intn(4)]
+	if s.network {
+		s.mode = []string{"privilege-exec", "exec", "configuration"}[r.Intn(3)]
+	}
+	for i, n := 0, r.Range(2, 4); i < n; i++ {
+		o := c13GenOp(r, s, thorough)
+		s.ops = append(s.ops, o)
+	}
+	return s
 }
 
 func c13RunSession(s *c13sess) {
@@ -995,6 +1188,10 @@ func c13RunSession(s *c13sess) {
 	dev.Start()
 	opts := []util.Option{options.WithCustomTransport(dev), options.WithAuthBypass(),
 		options.WithTimeoutOps(3 * time.Second), options.WithReadDelay(50 * time.Microsecond)}
+	if s.platform != "" {
+		c13RunPlatformSession(s, dev, opts)
+		return
+	}
 	if s.drvGiven {
 		opts = append(opts, options.WithFailedWhenContains(append([]string{}, s.drv...)))
 	}
@@ -1034,6 +1231,66 @@ func c13RunSession(s *c13sess) {
 		}
 	}
 	defer closer()
+	c13RunOps(s, dev, api, nd)
+}
+
+// c13RunPlatformSession: the driver comes from platform.NewPlatform / NewPlatformVariant for an
+// embedded definition; its failed-when-contains list must be the one in force. Prompts, privilege
+// levels and on-open/on-close of the definition are replaced by the simulator's (loading and driving
+// the platforms themselves is C17's subject).
+func c13RunPlatformSession(s *c13sess, dev *c13dev, opts []util.Option) {
+	fail := func(err error) {
+		for _, o := range s.ops {
+			o.errClass, o.errText = "setup", err.Error()
+		}
+	}
+	if s.network {
+		opts = append(opts, options.WithPrivilegeLevels(c13Levels()), options.WithDefaultDesiredPriv("privilege-exec"))
+	}
+	var p *platform.Platform
+	var err error
+	if s.variant == "" {
+		p, err = platform.NewPlatform(s.platform, "h", opts...)
+	} else {
+		p, err = platform.NewPlatformVariant(s.platform, s.variant, "h", opts...)
+	}
+	if err != nil {
+		fail(err)
+		return
+	}
+	var api c13api
+	var nd *network.Driver
+	var closer func() error
+	if s.network {
+		d, err := p.GetNetworkDriver()
+		if err != nil {
+			fail(err)
+			return
+		}
+		d.OnOpen, d.OnClose, d.Driver.OnOpen, d.Driver.OnClose = nil, nil, nil, nil
+		api, nd, closer = d, d, d.Close
+		if err := d.Open(); err != nil {
+			fail(err)
+			return
+		}
+	} else {
+		d, err := p.GetGenericDriver()
+		if err != nil {
+			fail(err)
+			return
+		}
+		d.OnOpen, d.OnClose = nil, nil
+		api, closer = d, d.Close
+		if err := d.Open(); err != nil {
+			fail(err)
+			return
+		}
+	}
+	defer closer()
+	c13RunOps(s, dev, api, nd)
+}
+
+func c13RunOps(s *c13sess, dev *c13dev, api c13api, nd *network.Driver) {
 	drv := []string{}
 	if s.drvGiven {
 		drv = s.drv
@@ -1045,6 +1302,7 @@ func c13RunSession(s *c13sess) {
 		}
 		dev.Snapshot(func() {
 			dev.outs, dev.first, dev.target = o.outs, first, o.target()
+			dev.faultAt = o.faultAt
 			dev.started = !s.network
 			dev.user, dev.userMode, dev.stray = nil, nil, nil
 		})
@@ -1118,8 +1376,14 @@ func c13RunSession(s *c13sess) {
 		if err != nil {
 			o.errText = err.Error()
 			o.obsModel, o.obsSpec = "E"+o.errClass, "E"+o.errClass
+			if o.faultAt >= 0 && o.errClass == "timeout" {
+				// which error the channel reports is C05/C06's subject; here: that it is handed up and
+				// what had been transmitted by then
+				o.obsModel = "Echan|" + c13ShowSent(o.user)
+			}
 			if one != nil || multi != nil {
 				o.native = append(o.native, "a result was returned together with an error")
+				o.obsModel += "|a-result-was-returned-together-with-the-error"
 			}
 			continue
 		}
@@ -1154,8 +1418,8 @@ func c13RunSession(s *c13sess) {
 				case terr != nil || twin == nil:
 					o.twinDiff = fmt.Sprintf("SendConfigs on the same lines failed: %v", terr)
 				default:
-					a := sent + "|M" + c13Bit(one.Failed != nil) + "|I" + c13Members(one.Failed)
-					b := c13ShowSent(twinUser) + "|M" + c13Bit(twin.Failed != nil) + "|I" + c13Members(twin.Failed)
+					a := sent + "|M" + c13Bit(one.Failed != nil) + "|I" + c13Members(one.Failed) + "|J" + c13Hex(one.Result)
+					b := c13ShowSent(twinUser) + "|M" + c13Bit(twin.Failed != nil) + "|I" + c13Members(twin.Failed) + "|J" + c13Hex(twin.JoinedResult())
 					if a != b {
 						var rs []string
 						for _, x := range twin.Responses {
@@ -1178,7 +1442,7 @@ func c13RunSession(s *c13sess) {
 				rs = append(rs, c13ShowResp(r))
 				bits = append(bits, c13Bit(r != nil && r.Failed != nil))
 			}
-			o.obsModel = sent + "|R" + c13JoinOr("/", rs) + "|F" + c13ShowFailure(multi.Failed)
+			o.obsModel = sent + "|R" + c13JoinOr("/", rs) + "|F" + c13ShowFailure(multi.Failed) + "|J" + c13Hex(multi.JoinedResult())
 			o.obsSpec = sent + "|B" + c13JoinOr("", bits) + "|M" + c13Bit(multi.Failed != nil) + "|I" + c13Members(multi.Failed)
 		}
 	}
@@ -1198,7 +1462,7 @@ func c13DropBits(spec string) string {
 
 func runC13(c *ctx) {
 	res := c.res
-	res.Rule = "sessions of 1-4 operations on real generic/network drivers over the CLI simulator: SendCommand(s)/FromFile, SendConfigs/FromFile, SendConfig x driver-level list (absent/empty/1-3 strings) x operation-level list (absent/empty/1-3 strings) x stop-on-failed x 1-7 (thorough -14) commands (some empty) x failure placement none/first/middle/last/several/all/random x outputs embedding in-force strings, not-in-force strings, near misses (prefix, case, split over lines), failure strings containing LF laid across the joint of two consecutive outputs x read segmentation; every SendConfig is re-run as SendConfigs on an identical device and the verdicts compared; every call's operation options are a list in random order (a losing earlier WithFailedWhenContains, WithStopOnFailed twice) mixed with 0-3 operation options of other layers (WithNoStripPrompt, WithTimeoutOps, WithExactMatchInput, netconf WithFilterType, network WithPrivilegeLevel) before/between/after them; malformed stream: empty lists/files, missing files, empty failure strings, an option that returns an error; direct tie of response.NewResponse/Record/AppendResponse on arbitrary byte outputs over {a,b,LF,space} (random) and every needle of 1-3 bytes x every output of 0-5 bytes over {a,b} (exhaustive). non-trivial = in-domain operation with >= 2 commands or any failed response; distinct by case line"
+	res.Rule = "sessions of 1-4 operations on real generic/network drivers over the CLI simulator: SendCommand(s)/FromFile, SendConfigs/FromFile, SendConfig x driver-level list (absent/empty/1-3 strings) x operation-level list (absent/empty/1-3 strings) x stop-on-failed x 1-7 (thorough -14) commands (some empty) x failure placement none/first/middle/last/several/all/random x outputs embedding in-force strings, not-in-force strings, near misses (prefix, case, split over lines), failure strings containing LF laid across the joint of two consecutive outputs x read segmentation; every SendConfig is re-run as SendConfigs on an identical device and verdicts and JoinedResult compared; failure strings with regex metacharacters (and outputs only their regex reading would match), failure strings taken from the echoed command / the echo-output joint / the output-prompt joint / the prompt (with and without WithNoStripPrompt); Error() texts of every OperationError / MultiOperationError compared with the model; drivers built by platform.NewPlatform(Variant) for every embedded definition (its failed-when-contains list in force); a device that stops answering in the middle of the last operation; every call's operation options are a list in random order (a losing earlier WithFailedWhenContains, WithStopOnFailed twice) mixed with 0-3 operation options of other layers (WithNoStripPrompt, WithTimeoutOps, WithExactMatchInput, netconf WithFilterType, network WithPrivilegeLevel) before/between/after them; malformed stream: empty lists/files, missing files, empty failure strings, an option that returns an error; direct tie of response.NewResponse/Record/AppendResponse on arbitrary byte outputs over {a,b,LF,space} (random) and every needle of 1-3 bytes x every output of 0-5 bytes over {a,b} (exhaustive). non-trivial = in-domain operation with >= 2 commands or any failed response; distinct by case line"
 	var sessions []*c13sess
 	if c.replay != "" {
 		s, err := c13ParseLine(c.replay)
@@ -1213,6 +1477,14 @@ func runC13(c *ctx) {
 		}
 		for i, n := 0, c.n(200, 3000); i < n; i++ {
 			sessions = append(sessions, c13GenSession(c.rng, c.thorough(), true))
+		}
+		// every embedded platform definition (and variant): its failure list must be the one in force
+		for _, pl := range c13PlatformList(c) {
+			for k, n := 0, c.n(3, 8); k < n; k++ {
+				if s := c13GenPlatformSession(c.rng, pl, c.thorough()); s != nil {
+					sessions = append(sessions, s)
+				}
+			}
 		}
 		sessions = append(sessions, c13ExhaustiveDirect()...)
 		for i, n := 0, c.n(3000, 100000); i < n; i++ {
@@ -1240,6 +1512,40 @@ func runC13(c *ctx) {
 		}
 	}
 	ans := c.ask(lines)
+	// A timeout is the one observation here that the machine's load can produce by itself (a healthy
+	// command not answered within the operation's time limit while 12 sessions share the CPUs). A
+	// session in which a timed-out operation differs from the model is re-run alone, up to twice; a
+	// defect in the code shows again, a starved session does not.
+	retimed := 0
+	{
+		k := 0
+		for _, s := range sessions {
+			k0 := k
+			k += len(s.ops)
+			if s.direct {
+				continue
+			}
+			suspect := func() bool {
+				for i, o := range s.ops {
+					a := strings.Fields(ans[k0+i])
+					if o.errClass == "timeout" && (len(a) != 5 || o.obsModel != a[3]) {
+						return true
+					}
+				}
+				return false
+			}
+			for attempt := 0; attempt < 2 && suspect(); attempt++ {
+				for _, o := range s.ops {
+					o.resetObs()
+				}
+				c13RunSession(s)
+				retimed++
+			}
+		}
+	}
+	if retimed > 0 {
+		res.Note("%d session run(s) repeated alone after a timeout that the model does not predict", retimed)
+	}
 	k := 0
 	var slowest time.Duration
 	for _, s := range sessions {
@@ -1348,6 +1654,16 @@ func runC13(c *ctx) {
 			}
 			if o.straddle {
 				res.Count("outputs:failure-string-straddles-two-outputs")
+			}
+			if o.derived != "" {
+				res.Count("failure-string-from:" + o.derived)
+			}
+			if s.platform != "" {
+				res.Count("platform-built-driver")
+				res.Count("platform:" + s.platform)
+			}
+			if o.faultAt >= 0 {
+				res.Count("device-stops-answering:" + o.errClass)
 			}
 			// the collapsed response must report what the multi-response reports, for every failure list
 			if o.twinDiff != "" {
